@@ -43,6 +43,7 @@ def check(program: Program, run: Run) -> None:
         "single wrap at the tail, with nothing but the alias suffix and the upsert clause outside the parentheses (R2); each "
         "embedding site passes the flags its position needs, and sibling clauses that can hold a subquery operand agree (R3).")
     run.rule("R1 position flags are never Inherit at a clause slot of a statement renderer")
+    run.rule("R1b every convention field (quote characters, AS keyword, alias policies) has one value across the clause slots of a statement")
     run.rule("R4 (inherited from C08/R1c) a statement's own dialect policy does not depend on the context it is entered with (top-level set operation vs stand-alone)")
     run.rule("R2 incoming subquery/with_alias consumed only by the tail wrap; only alias suffix / ON CONFLICT outside the parentheses")
     run.rule("R3 embedding sites: FROM/JOIN items subquery+alias; CTE body neither; criteria, SET values, select list and IN container subquery=True")
@@ -85,6 +86,31 @@ def check(program: Program, run: Run) -> None:
     run.analysed = {"statement_clause_slots": n, "render_sites": len(sites)}
     if n < 12:
         raise AnalysisError(f"instance count below floor: statement clause slots {n}")
+
+    # ---- R1b: the convention fields (quote characters, AS keyword, alias policies ...) a statement hands to its clause
+    # slots must be the same for every slot that can hold a nested statement: a subquery in the select list must not see
+    # another as_keyword than the same subquery in WHERE
+    CONV = ("quote_char", "secondary_quote_char", "alias_quote_char", "dialect", "as_keyword", "groupby_alias", "orderby_alias")
+    for bn in BUILDER_CLASSES:
+        bc = program.cls(bn)
+        sk, _ = render(program, bc, attrs=dict(kinds["SELECT"]), ctx=CtxV.incoming(False))
+        per_field: dict = {}
+        for part, conds, in_rep in walk_parts(sk):
+            if isinstance(part, SlotP) and isinstance(part.ctx, CtxV) and part.method == "get_sql":
+                ra = root_attr(recv_path(part.recv))
+                if ra in EXEMPT_RECV:
+                    continue
+                for k in CONV:
+                    per_field.setdefault(k, {}).setdefault(show(part.ctx.fields[k], -6), (ra, part))
+        for k, vals in per_field.items():
+            ok = len(vals) <= 1
+            run.ob("C10/R1b convention field is the same at every clause slot of the statement", f"{bn}:{k}", ok, detail="; ".join(f"{v} at {ra}" for v, (ra, _) in list(vals.items())[:3]))
+            if not ok:
+                # the odd one out: the value used by the fewest slots
+                (v_odd, (ra_odd, part_odd)) = sorted(vals.items(), key=lambda kv: sum(1 for p2, _, _ in walk_parts(sk) if isinstance(p2, SlotP) and isinstance(p2.ctx, CtxV) and show(p2.ctx.fields[k], -6) == kv[0]))[0]
+                fn = part_odd.src[0] if part_odd.src else bn
+                run.finding(f"C10/convention-per-slot:{fn}:{ra_odd}:{k}", f"{fn} renders `{ra_odd}` with ctx.{k}={v_odd} while the other clause slots of the statement get {sorted(set(vals) - {v_odd})[:2]}: "
+                            "a nested query in that clause renders differently from the same query in another clause", where=f"{part_odd.src[2]}:{part_odd.src[1]}" if part_odd.src else "", rule="R1b")
 
     # ---- R2 tail wrap (SELECT kind, dialect-only state at its initial value)
     for bn in BUILDER_CLASSES:
